@@ -61,7 +61,7 @@ func (v *ValState) clone() *ValState {
 // InitVal prepares a chain for validator-set runs: pre-genesis phase, height 0, operator names whose
 // order equals the byte order of their concrete addresses.
 func (ch *Chain) InitVal(ops []string, keys []string) {
-	v := &ValState{Comet: cmttypes.NewValidatorSet(nil), CometOK: true, Phase: "pre", Plans: map[uint64]opchildtypes.ExecutorChangePlan{},
+	v := &ValState{Comet: cmttypes.NewValidatorSet(nil), CometOK: true, Phase: "pre", Batch: []any{}, Plans: map[uint64]opchildtypes.ExecutorChangePlan{},
 		PlanAbs: map[string]M{}, Ops: ops, opAddr: map[string]sdk.ValAddress{}, keyRev: map[string]string{}}
 	var addrs [][]byte
 	for i := range ops {
